@@ -360,7 +360,8 @@ class ReaderFromS3Body(ReaderFrom):
 
 # the functional, caller-facing view (used inside comprehensions of MosCollection.from_*) stays available
 from . import collection as _col
-for _q, _cls in (('mosromgr.moscollection.MosReader.from_string', _col.ReaderFromString), ('mosromgr.moscollection.MosReader.from_file', _col.ReaderFromFile)):
+for _q, _cls in (('mosromgr.moscollection.MosReader.from_string', _col.ReaderFromString), ('mosromgr.moscollection.MosReader.from_file', _col.ReaderFromFile),
+                 ('mosromgr.moscollection.MosReader.from_s3', _col.ReaderFromS3)):
     _inst = REGISTRY[_q]
     type(_inst).opaque = True
     type(_inst).cases = _cls.cases
